@@ -18,7 +18,8 @@ use crate::{
 };
 
 use super::{
-    duration::normalized::NormalizedDurationRecord, Duration, PartialDate, PlainDate, PlainDateTime,
+    duration::{normalized::NormalizedDurationRecord, TimeDuration},
+    Duration, PartialDate, PlainDate, PlainDateTime,
 };
 
 /// The native Rust implementation of `Temporal.YearMonth`.
@@ -50,6 +51,14 @@ impl PlainYearMonth {
         overflow: ArithmeticOverflow,
     ) -> TemporalResult<Self> {
         // Potential TODO: update to current Temporal specification
+        // NOTE: A year-month counts whole months only: weeks and days (including the whole days
+        // of the time units) cannot be added.
+        let (time_days, _) =
+            TimeDuration::from_normalized(duration.time().to_normalized(), Unit::Day)?;
+        if duration.weeks() != 0.0 || duration.days() != 0.0 || time_days != 0.0 {
+            return Err(TemporalError::range()
+                .with_message("Weeks and days cannot be added to a PlainYearMonth."));
+        }
         let partial = PartialDate::try_from_year_month(self)?;
 
         let mut intermediate_date = self.calendar().date_from_partial(&partial, overflow)?;
